@@ -14,6 +14,8 @@ min/max and iteration, so its *discipline* is decidable although results are not
  g no unchecked + - * on bounds (no MIR overflow assert in FiniteDomain methods);
  h next / next_back of both iterator types delegate to the same variant's iterator;
    is_singleton / min / max / contains use the representation consistently.
+ (round 4/5) exact predecessor in copy_before (no clamping arithmetic in the set algebra, F17); merge cursors only
+   ever step forward with next() of their own iterator; no FiniteDomain variant is constructed outside fd.rs.
 """
 import hirwalk
 import streams
@@ -95,6 +97,21 @@ def check_sparse_sites(ctx, lib, rule):
             cls, msg = classify_vec(t, v)
             ctx.expect(cls is not None, rule, "%s|sparse-site" % p, site_of(fn), "Sparse(..) built from a vector that is not provably strictly increasing: %s" % msg, detail=cls or "")
     ctx.floor(rule, n, 6, "Sparse construction sites")
+    # ... and nobody else builds the representation directly: the variants are public, but the invariant (strictly
+    # increasing values, start <= end) is established only by the constructors in fd.rs.  The sites counted
+    # above are the positive control of this zero-count rule.
+    evn = sym.Evaluator(lib, inline=lambda p_, f_: False)
+    outside = 0
+    for p, fn in hirwalk.fns_nontest(lib):
+        if "state::fd::" in p:
+            continue
+        for c in sym.ctors(evn.fn_term(fn)):
+            if c[1].endswith("FiniteDomain::Sparse") or c[1].endswith("FiniteDomain::Interval"):
+                outside += 1
+                ctx.fn_seen(p)
+                ctx.violation(rule, "%s|builds-%s-directly" % (p, c[1].split("::")[-1]), site_of(fn), "a domain is built from the bare variant outside src/state/fd.rs: the values are not sorted / deduplicated / checked by the From constructors, so min / max / is_singleton / the merges read a sequence that may break the representation invariant")
+    if not outside:
+        ctx.ok(rule, "no-direct-construction-outside-fd", "src/state/fd.rs", "no FiniteDomain variant is constructed outside its module")
 
 
 def classify_vec(t, v):
@@ -459,6 +476,20 @@ def check_delegation(ctx, lib, rule):
         r = tables.result(t)
         good = r[0] == "if" and unify(pat("is_singleton(@0)"), r[1]) is not None and unify(pat("Some(min(@0))"), tables.result(r[2])) is not None and r[3] is not None and unify(pat("None"), tables.result(r[3])) is not None
         ctx.expect(good, rule, fn["npath"] + "|value", site_of(fn), "singleton_value must be Some(min) iff is_singleton")
+
+
+def check_algebra_for_propagators(ctx, lib, R):
+    """The operations of the set algebra that the propagators and the domain store call (intersect from
+    update_var_domain, copy_before / drop_before from the order propagator, diff / is_disjoint from the
+    disequality propagators): each is the exact set operation, whatever the representation of its
+    operands - so their outcome does not depend on which goal happened to turn an interval into a sparse
+    list first (shared with C04 / C16 / C17)."""
+    for name in ("intersect", "diff", "is_disjoint"):
+        check_merge(ctx, lib, R + "K6.domain-algebra", name)
+    check_intervals(ctx, lib, R + "K6.domain-algebra")
+    check_before(ctx, lib, R + "K6.domain-algebra")
+    check_none_iff_empty(ctx, lib, R + "K6.domain-algebra")
+    check_sparse_sites(ctx, lib, R + "K6.domain-algebra")
 
 
 def run(ctx, fb, cfg):
